@@ -126,15 +126,31 @@ class TRef(Ty):
         raise Unsupported(f"{self.name} expected, got {v!r}")
 
 
+def _san(x):
+    out = "".join(ch if (ch.isalnum() or ch == "_") else "_" for ch in str(x))
+    while "__" in out:
+        out = out.replace("__", "_")
+    return out.strip("_")
+
+
 class TTup(Ty):
     _cache: dict = {}
 
     def __init__(self, *tys, name=None):
         self.tys = tys
-        key = name or ("Tup_" + "_".join(str(t.sort) for t in tys)).replace(" ", "").replace("(", "_").replace(")", "_")
-        if key not in TTup._cache:
-            TTup._cache[key] = z3.TupleSort(key, [t.sort for t in tys])
-        self.sort, self.mk, self.proj = TTup._cache[key]
+        key = _san(name or ("Tup_" + "_".join(str(t.sort) for t in tys)))
+        sig = tuple(t.sort for t in tys)
+        k2 = key
+        n = 0
+        while k2 in TTup._cache and TTup._cache[k2][0] != sig:
+            n += 1
+            k2 = f"{key}_v{n}"
+        if k2 not in TTup._cache:
+            dt = z3.Datatype(k2)
+            dt.declare("mk_" + k2, *[(f"{k2}_f{i}", t.sort) for i, t in enumerate(tys)])
+            srt = dt.create()
+            TTup._cache[k2] = (sig, srt, srt.constructor(0), [srt.accessor(0, i) for i in range(len(tys))])
+        _sig, self.sort, self.mk, self.proj = TTup._cache[k2]
 
     def wrap(self, t):
         return VTuple([ty.wrap(z3.simplify(p(t))) if False else ty.wrap(p(t)) for ty, p in zip(self.tys, self.proj)], self, t)
@@ -173,7 +189,7 @@ class TOpt(Ty):
 
     def __init__(self, ty: Ty):
         self.ty = ty
-        self._tt = TTup(TBool, ty, name="Opt_" + str(ty.sort).replace(" ", "_").replace("(", "_").replace(")", "_"))
+        self._tt = TTup(TBool, ty, name="Opt_" + str(ty.sort))
         self.sort = self._tt.sort
 
     def wrap(self, t):
@@ -190,7 +206,7 @@ class TOpt(Ty):
 class TDict(Ty):
     def __init__(self, kty: Ty, vty: Ty, default=None):
         self.kty, self.vty, self.default = kty, vty, default
-        self._tt = TTup(TSet(kty), _ArrTy(kty, vty), name=("Dict_%s_%s" % (kty.sort, vty.sort)).replace(" ", "_").replace("(", "_").replace(")", "_"))
+        self._tt = TTup(TSet(kty), _ArrTy(kty, vty), name="Dict_%s_%s" % (kty.sort, vty.sort))
         self.sort = self._tt.sort
 
     def wrap(self, t):
@@ -219,7 +235,7 @@ class _ArrTy(Ty):
 class TList(Ty):
     def __init__(self, ety: Ty):
         self.ety = ety
-        self._tt = TTup(TInt, _ArrTy(TInt, ety), name=("List_%s" % ety.sort).replace(" ", "_").replace("(", "_").replace(")", "_"))
+        self._tt = TTup(TInt, _ArrTy(TInt, ety), name="List_%s" % ety.sort)
         self.sort = self._tt.sort
 
     def wrap(self, t):
